@@ -51,6 +51,46 @@ func genTypingCase(t *rapid.T) *TypingCase {
 
 // botSkipFamily: calls where a polymorphic overload with a concrete container
 // parameter meets an empty-literal argument (F23) — only while that finding is open.
+// siblingTypes: every composite type keeps its constructor but gets other primitives inside
+// (num -> str -> bool -> num, time -> num); primitive bindings stay as they are.
+func siblingTypes(env map[string]*m.Type) map[string]*m.Type {
+	var swap func(t *m.Type, top bool) *m.Type
+	swap = func(t *m.Type, top bool) *m.Type {
+		switch t.K {
+		case m.TNum:
+			if top {
+				return t
+			}
+			return m.Str
+		case m.TStr:
+			if top {
+				return t
+			}
+			return m.Bool
+		case m.TBool, m.TTime:
+			if top {
+				return t
+			}
+			return m.Num
+		case m.TFun, m.TVar, m.TBot:
+			return t
+		}
+		n := &m.Type{K: t.K, N: t.N}
+		for _, a := range t.A {
+			n.A = append(n.A, swap(a, false))
+		}
+		for _, f := range t.F {
+			n.F = append(n.F, m.Field{Name: f.Name, T: swap(f.T, false)})
+		}
+		return n.FixKeys()
+	}
+	out := map[string]*m.Type{}
+	for k, t := range env {
+		out[k] = swap(t, true)
+	}
+	return out
+}
+
 func checkC05(c *TypingCase) *Outcome {
 	if err := checkBuiltInTable(); err != nil {
 		return &Outcome{Err: err}
@@ -75,6 +115,9 @@ func checkC05(c *TypingCase) *Outcome {
 	// Compile (the public entry point) must give the same verdict, as an error value
 	for _, be := range []run.Backend{run.VMSwitch, run.Closure} {
 		en := run.NewEngine(be, pc.Extra)
+		// first the same text against a sibling environment on the same engine (same names, same
+		// top-level constructors, other types inside): its verdict is not looked at
+		_, _, _ = en.CompileSrc(r.Src, siblingTypes(pc.Env))
 		_, cerr, cp := en.CompileSrc(r.Src, pc.Env)
 		if cp != nil {
 			return bad("%s: Compile panicked: %s\n src: %s", be, cp.Text, r.Src)
